@@ -158,6 +158,32 @@ theorem C13_fixpoint_partial (dir name : Str) (ep : Option Nat) (ver rel arch : 
   have := C13_parse_partial [] name (some (ep.getD 0)) ver rel arch false hd (fun _ => harch) hl
   simpa [fmtNvra, fmtBase, epStr, canonNvra, pctS] using this
 
+/-- **The key `Rpms.add` files a package under** (`Rpms._check_nevra`): for a string of the documented shape that
+carries an epoch, the canonical `name-epoch:version-release.arch` together with the parts; and that key is a fixed
+point of the key computation. -/
+theorem C13_check_nevra_partial (dir name : Str) (e : Nat) (ver rel arch : Str) (rpm : Bool)
+    (h : Dom dir name (some e) ver rel arch) (harch : arch ≠ ['r', 'p', 'm']) (hlim : EpochWithinIntLimit (some e)) :
+    let p : Nvra := { name := some name, epoch := e, version := some ver, release := some rel, arch := some arch }
+    checkNevra (fmtNvra dir name (some e) ver rel arch rpm) = .ok (canonNvra p, p)
+    ∧ checkNevra (canonNvra p) = .ok (canonNvra p, p) := by
+  intro p
+  have h1 := C13_parse_partial dir name (some e) ver rel arch rpm h (fun _ => harch) hlim
+  have hd : Dom [] name (some e) ver rel arch :=
+    { h with dir_shape := Or.inl rfl, dir_nl := by simp }
+  have h2 := C13_parse_partial [] name (some e) ver rel arch false hd (fun _ => harch) hlim
+  have hc : canonNvra p = fmtNvra [] name (some e) ver rel arch false := by
+    simp [p, fmtNvra, fmtBase, epStr, canonNvra, pctS]
+  constructor
+  · have : (fmtNvra dir name (some e) ver rel arch rpm).contains ':' = true := by
+      simp [fmtNvra, fmtBase, epStr]
+    simp only [checkNevra, this, h1]
+    rfl
+  · have h2' : parseNvra (canonNvra p) = .ok p := by rw [hc]; exact h2
+    have : (canonNvra p).contains ':' = true := by
+      rw [hc]; simp [fmtNvra, fmtBase, epStr]
+    simp only [checkNevra, this, h2']
+    rfl
+
 /-! ### non-vacuity: concrete members of the domain, evaluated by the kernel -/
 example : Dom "Packages/g/".toList "glibc-common-2".toList (some 12) "2.17".toList "78.el7".toList "x86_64".toList :=
   { dir_shape := Or.inr ⟨"Packages/g".toList, rfl⟩, dir_nl := by decide, name_nl := by decide, name_slash := by decide,
